@@ -69,6 +69,29 @@ fn check_target(
 }
 
 impl Probe for CausalProbe {
+    /// a live replica that has just refreshed (nothing staged) shows what a full reload of its storage shows
+    fn on_transition(&self, sc: &Scenario, hist: &[Op], op: &Op, _pre: &World, out: &OpOut, post: &World, cx: &mut Cx) {
+        let r = match op {
+            Op::Refresh(r) | Op::Sync(r, _) => *r,
+            _ => return,
+        };
+        if !out.is_ok() || post.any_dead() || has_staging(&post.reps[r].m) {
+            return;
+        }
+        cx.count("refresh_vs_reload");
+        let live = post.view(r);
+        let mut h = hist.to_vec();
+        h.push(op.clone());
+        let mut w = sc.build(&h);
+        let o = w.apply(&Op::Reload(r));
+        if !o.is_ok() {
+            return;
+        }
+        let reloaded = w.view(r);
+        if live != reloaded {
+            cx.violation("C02", "C02:live-refresh-differs-from-reload", sc, &h, json!({"replica": r, "differs": diff_keys(&live, &reloaded), "after_refresh": live, "after_reload": reloaded}));
+        }
+    }
     fn on_state(&self, sc: &Scenario, hist: &[Op], cx: &mut Cx) {
         let w = sc.build(hist);
         if w.any_dead() {
@@ -251,6 +274,8 @@ pub fn scenarios(thorough: bool) -> Vec<Scenario> {
     // replica 1 lacks the tenth and eleventh commit of replica 0 (block indexes 10 and 11)
     v.push(many_commits_scenario("pair-many-commits", if thorough { 3 } else { 2 }, &[]));
     v.extend(cross_scenarios(thorough));
+    // (the delivery-order probe is expensive: only the combinations that are about arrival of items)
+    v.extend(combo_scenarios(thorough).into_iter().filter(|s| s.name.contains("held-back") || s.name.contains("ring")));
     v
 }
 
